@@ -35,7 +35,9 @@ type gjTree struct {
 	other string // a non-number leaf ("string", "null")
 }
 
-func gjPos(p oBoxPt) gjTree { return gjTree{kids: []gjTree{{leaf: true, rank: p.x}, {leaf: true, rank: p.y}}} }
+func gjPos(p oBoxPt) gjTree {
+	return gjTree{kids: []gjTree{{leaf: true, rank: p.x}, {leaf: true, rank: p.y}}}
+}
 
 func gjFromRing(r []oBoxPt) gjTree {
 	t := gjTree{}
@@ -106,13 +108,13 @@ func gjOfValue(v oval, nilAt *string, path string) (gjTree, bool) {
 }
 
 type gjModel struct {
-	m      *clipModel
-	c      *Ctx
-	anyT   types.Type // interface{}
-	arrT   types.Type // []interface{}
-	geomT  *types.Named
-	strT   types.Type
-	mpT    types.Type
+	m     *clipModel
+	c     *Ctx
+	anyT  types.Type // interface{}
+	arrT  types.Type // []interface{}
+	geomT *types.Named
+	strT  types.Type
+	mpT   types.Type
 }
 
 // jsonValue builds what encoding/json.Unmarshal stores for a tree.
